@@ -19,6 +19,19 @@ Experiments (field "exp" of a case)
                factory key back, the previous key must stop working) and on FeliCa tags with locked system blocks
                (protect may refuse there; a reported success is judged the same way)
 
+  order        several steps on ONE tag object: sequences over {tag.ndef (octets, length, records), authenticate with
+               the right / a wrong password, tag.ndef.octets = ..., read_with_mac, has_changed}, each step with or
+               without a man in the middle that applies one standing modification (bit of a message block, block
+               replaced, message length in the attribute block changed with the checksum repaired) to every response
+               it can - in particular "read before authentication (falsified, nothing protects that read),
+               authenticate, read again".  While the last authenticate() returned True every NDEF result handed to
+               the application is the message the tag model holds or a failure, whether it comes from a new read or
+               from an object cached earlier; cached genuine data without a new read is accepted (the number of MAC
+               protected reads after authentication is an observation).  Every authenticate() and read_with_mac()
+               result inside the session is judged as in the single-step experiments.  NTAG21x / Ultralight EV1 /
+               Ultralight C have no message authentication for reads (outside the second sentence of the property):
+               the same sequences are run there and what the cache does is recorded, not judged.
+
 Counterfeit tags / block count (mode "reblock"): every Read response of the FeliCa authentication exchange, of
 read_with_mac and of the NDEF read is also delivered as a *well-formed* response (LEN octet right, status 0000) that
 carries another sequence of blocks than requested: none, every proper prefix and suffix, blocks appended / inserted /
@@ -61,7 +74,10 @@ RULE = ("cases = (tag kind {FeliCa Lite, Lite-S, Lite-S/Link, NTAG210/212/213/21
         "and on locked FeliCa tags; every Read response of those exchanges as a well-formed response with another "
         "number of blocks {0, each proper prefix/suffix, appended, inserted, duplicated} x count octet {adjusted, "
         "kept} against key-holding and other-key tags; PWD_AUTH/AUTHENTICATE responses of other lengths; 1-4 writes "
-        "with MAC per session. A case is distinct by (experiment, tag model, password, modification) and non-trivial when the "
+        "with MAC per session; sessions of 3-7 steps over {ndef read, authenticate right/wrong, ndef write, "
+        "read_with_mac, has_changed} x man in the middle on/off per step x standing modification {message bit, block "
+        "substituted, attribute length rewritten} on one tag object (12 fixed sequences + random ones), reads before "
+        "authentication included. A case is distinct by (experiment, tag model, password, modification) and non-trivial when the "
         "deciding call was reached (tag activated, set-up authentication succeeded, modification applied).")
 ASSUMPTIONS = [
     "vf.sim.t3t / vf.ref.felica_mac (session key, MAC, MAC_A, WCNT rules from the FeliCa Lite/Lite-S manuals) and "
@@ -74,6 +90,10 @@ ASSUMPTIONS = [
     "protect() accepted must authenticate",
     "header bytes, status flag 2, the block count and the 8 unused bytes of the MAC block are not covered by the "
     "MAC: accepting a modification there is not a violation (recorded in the accept/reject matrix)",
+    "session experiments: the application-visible NDEF result (tag.ndef None, octets, length, records) after a "
+    "successful authenticate() counts as data read with message authentication (FelicaLite switches the NDEF read "
+    "to read_with_mac); data falsified during an unprotected read *before* authentication is a modification of the "
+    "tag's responses like any other; Type 2 tags have no MAC on reads, their cache behaviour is observed only",
     "a valid response of the *same* session for other blocks spliced in is outside the quantifier (the Lite MAC "
     "does not cover block numbers); observed and counted, not judged",
 ]
@@ -90,7 +110,13 @@ REQUIRED = ["sessions_lite", "sessions_lites", "sessions_ntag21x", "sessions_ulc
             "protect_pairs_ok_issuer_key_empty_password/lite", "protect_pairs_ok_issuer_key_empty_password/lites",
             "protect_pairs_ok_issuer_key_empty_password/ntag21x", "protect_pairs_ok_issuer_key_empty_password/ulc",
             "protect_pairs_ok_issuer_key_nonempty_password", "protect_previous_key_rejected", "protect_locked_reached",
-            "maca_write_ok_after_prior_writes"]
+            "maca_write_ok_after_prior_writes",
+            # session order: reads before / between / after authentications on one tag object
+            "order_sessions/lite", "order_sessions/lites", "order_unauth_tampered_read_accepted",
+            "order_falsified_before_auth_then_genuine/lite", "order_falsified_before_auth_then_genuine/lites",
+            "order_falsified_before_auth_then_rejected/lite", "order_falsified_before_auth_then_rejected/lites",
+            "order_mac_reads_after_auth", "order_repeated_read_after_auth_ok", "order_reauth_after_failed_auth",
+            "order_read_after_write_ok", "order_rmac_ok", "order_rmac_tampered_rejected"]
 
 NTAGS = ("ntag210", "ntag212", "ntag213", "ntag215", "ntag216")
 ULEV1 = ("ul11", "ul21")
@@ -106,11 +132,12 @@ def plan(tier, seed):
     n = 16
     if tier == "quick":
         base = dict(auth_felica=100, auth_ntag=500, auth_ulc=30, stripes=1, authT_rand=16, authT_ntag=24,
-                    readmac=[2, 1, 1], readmac_rand=30, ndef=1, ndef_rand=6, wmac=10, wmac_stripes=1, protect=1)
+                    readmac=[2, 1, 1], readmac_rand=30, ndef=1, ndef_rand=6, wmac=10, wmac_stripes=1, protect=1,
+                    order=1, order_rand=6)
         return [dict(base) for _ in range(n)]
     base = dict(auth_felica=800, auth_ntag=5000, auth_ulc=300, stripes=12, authT_rand=200, authT_ntag=400,
                 readmac=[20, 10, 6], readmac_rand=400, ndef=10, ndef_rand=80, wmac=150, wmac_stripes=12, protect=8,
-                timeout=3000)
+                order=8, order_rand=100, timeout=3000)
     return [dict(base) for _ in range(n)]
 
 
@@ -188,6 +215,10 @@ def build_model(ms):
         return m
     rng = random.Random(ms.get("uidseed", 1))
     m = t2sim.product_model(k, rng=rng, seed=ms.get("seed", 1))
+    if ms.get("msg"):
+        msg = bytes(ms["msg"])
+        assert len(msg) < 40
+        m.mem[16:16 + 3 + len(msg)] = bytes([0x03, len(msg)]) + msg + b"\xFE"
     if k == "ulc":
         m.mem[44 * 4:48 * 4] = halves_reversed(ms["key"])
     else:
@@ -220,6 +251,9 @@ class Mitm(object):
         self.n = 0
         self.trace = []
         self.cache = None
+        self.rule = None
+        self.rule_on = False
+        self.wire = []
 
     def __getattr__(self, name):
         return getattr(self.inner, name)
@@ -247,6 +281,14 @@ class Mitm(object):
             if self.cache:
                 self.cache.clear()
             rsp = self.inner.command(data)
+        if self.rule is not None:
+            # session experiments: a standing rule (what this attacker does to every response it can), switched on
+            # and off per step; everything that crossed the air is kept in `wire`
+            out = rsp
+            if self.rule_on and rsp is not None:
+                out = apply_rule(self.rule, data, rsp)
+            self.wire.append((data, rsp, out))
+            return out
         if self.plan is None:
             return rsp
         n = self.n
@@ -282,6 +324,44 @@ def apply_action(act, rsp):
         n = int(act["resize"])
         fill = bytes(act.get("fill", b"")) or b"\x00"
         r = (r + bytearray((fill * (n // len(fill) + 1))[:max(0, n - len(r))]))[:n]
+    return bytes(r)
+
+
+def apply_rule(rule, cmd, rsp):
+    """standing modification used by the session experiments (exp "order"): what the man in the middle does to every
+    response it can, for as long as it is switched on
+      {"rule": "flip", "block": n, "bit": b}        bit b (0..127) of block n in every FeliCa Read response with block n
+      {"rule": "subst", "block": n, "data": 16 B}   block n replaced
+      {"rule": "attr-ln", "ln": L}                  length field of the NDEF attribute block (block 0) rewritten and the
+                                                    attribute checksum repaired (a shorter / longer message)
+      {"rule": "t2-flip", "offset": o, "bit": b}    bit b of memory byte o in every Type 2 READ response that carries it
+    Nothing else is touched; a MAC block stays as the tag computed it (the attacker has no key)."""
+    r = bytearray(rsp)
+    kind = rule["rule"]
+    if kind == "t2-flip":
+        if len(cmd) == 2 and cmd[0] == 0x30 and len(rsp) == 16:
+            o = int(rule["offset"]) - cmd[1] * 4
+            if 0 <= o < 16:
+                r[o] ^= 0x80 >> (int(rule["bit"]) & 7)
+        return bytes(r)
+    g = t3_blocks(rsp)
+    code, nums = t3_parse(cmd)
+    if g is None or code != 0x06 or len(nums) != len(g[1]):
+        return rsp
+    for j, n in enumerate(nums):
+        off = 13 + 16 * j
+        if kind == "attr-ln":
+            if n == 0:
+                ln = int(rule["ln"])
+                r[off + 11:off + 14] = bytes([ln >> 16 & 0xFF, ln >> 8 & 0xFF, ln & 0xFF])
+                ck = sum(r[off:off + 14])
+                r[off + 14:off + 16] = bytes([ck >> 8 & 0xFF, ck & 0xFF])
+        elif n == int(rule["block"]):
+            if kind == "flip":
+                b = int(rule["bit"]) & 127
+                r[off + (b >> 3)] ^= 0x80 >> (b & 7)
+            else:
+                r[off:off + 16] = (bytes(rule["data"]) + bytes(16))[:16]
     return bytes(r)
 
 
@@ -1077,13 +1157,244 @@ def x_protect(case, R):
                 R.count("protect_previous_key_rejected")
 
 
+# ---- session order: reads, authentications, writes in one session on one tag object ---------------------
+def t2_message(model):
+    m = model.mem
+    return bytes(m[18:18 + m[17]]) if m[16] == 0x03 and m[17] != 0xFF else None
+
+
+def genuine_message(sess):
+    return model_message(sess.model) if sess.kind in ("lite", "lites") else t2_message(sess.model)
+
+
+def records_view(records):
+    return [(r.type, r.name, bytes(r.data)) for r in records]
+
+
+def ndef_view(tag):
+    """what the application sees of the NDEF message through tag.ndef: None or (octets, length, records | None)"""
+    n = tag.ndef
+    if n is None:
+        return None
+    octets, length = bytes(n.octets), n.length
+    try:
+        recs = records_view(n.records)
+    except Exception:     # noqa: a message that does not decode (random octets); octets and length are still judged
+        recs = None
+    return octets, length, recs
+
+
+def reference_records(octets):
+    import ndef
+    try:
+        return records_view(ndef.message_decoder(octets, errors="relax"))
+    except Exception:     # noqa
+        return None
+
+
+def step_label(st):
+    op = st["op"]
+    if op == "auth":
+        return "auth" + ("+" if st.get("right") else "-")
+    return op + ("*" if st.get("t") else "")
+
+
+def x_order(case, R):
+    """one session on ONE tag object: case["steps"] is a list over
+         {"op": "ndef"}                      tag.ndef -> octets, length, records
+         {"op": "auth", "pw": p}             tag.authenticate(p)      ("right": whether p is the tag's password)
+         {"op": "write", "data": d}          tag.ndef.octets = d
+         {"op": "rmac", "blocks": [..]}      tag.read_with_mac(*blocks)                       (FeliCa)
+         {"op": "changed"}                   tag.ndef.has_changed (a forced re-read)
+       every step with "t": 1 runs while the man in the middle applies case["rule"] (apply_rule) to every response.
+       Judged (FeliCa Lite / Lite-S): every authenticate() result; every read_with_mac() result; every NDEF result
+       handed to the application while the last authenticate() returned True is the message the tag model holds or a
+       failure - whether it comes from a new read or from the object cached by an earlier (unprotected) read.
+       Returning cached *genuine* data without a new read is fine.  Type 2 families have no message authentication
+       for reads: their sessions are recorded, not judged."""
+    ms, rule, steps = case["ms"], case["rule"], case["steps"]
+    sess = Sess(ms, R)
+    fam, kind = sess.fam, sess.kind
+    felica = kind in ("lite", "lites")
+    tag = sess.open()
+    key = ("order", ms, rule, steps)
+    if tag is None or not check_tag_class(R, sess, case):
+        R.case(key, nontrivial=False)
+        return
+    mitm, model = sess.mitm, sess.model
+    mitm.rule, mitm.wire = rule, []
+    R.count("order_sessions/" + fam)
+    R.seen("order_sequences/" + ("felica" if felica else "t2"), " ".join(step_label(st) for st in steps))
+    authed = False            # the last authenticate() of this session returned True
+    failed_before = False     # an authenticate() of this session returned something else than True
+    falsified = None          # octets an unprotected read handed out that the tag never held (nothing genuine since)
+    after_write = False
+    genuine_since_auth = False
+    unknown = False           # a write failed half way: cache and tag may differ for reasons outside this property
+    judged = 0
+
+    def viol(sig, what, i):
+        report(R, sess, sig, "step %d (%s) of [%s]: %s" % (i, step_label(steps[i]),
+                                                          " ".join(step_label(x) for x in steps), what), case)
+
+    for i, st in enumerate(steps):
+        op = st["op"]
+        mitm.rule_on = bool(st.get("t"))
+        w0 = len(mitm.wire)
+        if op == "auth":
+            res = call(lambda: tag.authenticate(pw_obj(st["pw"], "bytes")))
+            mitm.rule_on = False
+            is_true = res == ("ret", True)
+            h = holds(ms, st["pw"])
+            touched_ = any(r is not None and r != o for _c, r, o in mitm.wire[w0:])
+            if felica and not touched_:
+                judged += 1
+                if h and not is_true:
+                    viol("order/auth-false-negative/%s/%s" % (fam, okind(res)),
+                         "the model holds the key of this password, nothing of the exchange was modified, "
+                         "authenticate() %s" % describe(res), i)
+                elif not h and is_true:
+                    viol("order/auth-false-positive/%s" % fam,
+                         "authenticate() returned True although the model holds another key", i)
+                elif is_true:
+                    R.count("order_auth_in_session_true")
+                    if failed_before:
+                        R.count("order_reauth_after_failed_auth")
+                else:
+                    R.count("order_auth_in_session_rejected")
+            R.count("order_auth/%s/%s" % (fam, okind(res)))
+            authed = is_true
+            genuine_since_auth = False
+            failed_before = failed_before or not is_true
+            if is_true and felica:
+                post_auth_checks(R, sess, res, case)
+            continue
+        want = genuine_message(sess)
+        if op == "ndef":
+            res = call(lambda: ndef_view(tag))
+            mitm.rule_on = False
+            wire = mitm.wire[w0:]
+            applied = any(r is not None and r != o for _c, r, o in wire)
+            roles = [role_of(kind, c) for c, _r, _o in wire]
+            macreads = roles.count("mac-read")
+            # reads of the message area that carry no MAC (the Lite-S look at the MC block is not one)
+            plainreads = sum(1 for (c, _r, _o), role in zip(wire, roles) if role == "read" or (
+                role == "plain-read" and any(n <= 0x0E for n in t3_parse(c)[1])))
+            returned = res[0] == "ret" and res[1] is not None
+            state = "authenticated" if authed else "not-authenticated"
+            R.count("order_ndef/%s/%s/%s/%s" % (fam, state, "tampering" if applied else "quiet",
+                                                ("genuine" if res[1][0] == want else "other-data") if returned
+                                                else "failure"))
+            if not (felica and authed) or unknown:
+                # no message authentication (yet): what comes back is recorded; a falsified message is remembered
+                if returned and res[1][0] != want:
+                    falsified = res[1][0]
+                    if applied:
+                        R.count("order_unauth_tampered_read_accepted")
+                elif returned:
+                    falsified = None
+                if not felica and authed:
+                    R.count("order_t2_after_auth/%s/%s" % (fam, "failure" if not returned else "genuine" if
+                                                          res[1][0] == want else "falsified-by-this-read" if applied
+                                                          else "stale-falsified" if not wire else "other-data"))
+                if unknown:
+                    R.count("order_unjudged_after_failed_write")
+                continue
+            judged += 1
+            R.count("order_mac_reads_after_auth", macreads)
+            R.count("order_plain_reads_after_auth", plainreads)
+            if not returned:
+                if applied:
+                    R.count("order_tampered_read_after_auth_rejected")
+                    if falsified is not None:
+                        R.count("order_falsified_before_auth_then_rejected/" + fam)
+                else:
+                    R.count("order_ndef_after_auth_quiet_failure/%s/%s" % (fam, okind(res)))
+                continue
+            octets, length, recs = res[1]
+            if octets != want:
+                if not wire:
+                    cls = "stale-ndef-after-authenticate"
+                    how = ("no command went to the tag: the object cached %s authentication was handed out"
+                           % ("by an unprotected read before" if octets == falsified else "before"))
+                elif applied:
+                    cls = "accepted-tampered/" + rule["rule"]
+                    how = "%d read(s) with MAC, %d without; the man in the middle was active" % (macreads, plainreads)
+                else:
+                    cls = "returned-wrong-data"
+                    how = "%d read(s) with MAC, %d without, none modified" % (macreads, plainreads)
+                viol("order/%s/%s" % (cls, fam), "authenticate() had returned True; tag.ndef.octets = %s while the tag "
+                     "model holds %s (%s)" % (octets.hex(), want.hex(), how), i)
+                continue
+            if length != len(want):
+                viol("order/length-differs/%s" % fam, "tag.ndef.length = %d, the message the model holds has %d octets"
+                     % (length, len(want)), i)
+            ref = reference_records(want)
+            if ref is not None and recs != ref:
+                viol("order/records-differ/%s" % fam, "tag.ndef.records are not the records of the message the "
+                     "model holds", i)
+            if wire:
+                R.count("order_ndef_after_auth_reread_genuine")
+                if falsified is not None:
+                    R.count("order_falsified_before_auth_then_genuine/" + fam)
+            else:
+                R.count("order_ndef_after_auth_cached_genuine")
+            if genuine_since_auth:
+                R.count("order_repeated_read_after_auth_ok")
+            genuine_since_auth = True
+            if after_write:
+                R.count("order_read_after_write_ok")
+                after_write = False
+            falsified = None
+        elif op == "write":
+            before = want
+            res = call(lambda: setattr(tag.ndef, "octets", bytes(st["data"])))
+            mitm.rule_on = False
+            now = genuine_message(sess)
+            R.count("order_write/%s/%s/%s" % (fam, "authenticated" if authed else "not-authenticated", okind(res)))
+            if res == ("ret", None) and now == bytes(st["data"]):
+                after_write = True
+                falsified = None
+                R.count("order_write_ok")
+            elif now != before:
+                unknown = True
+        elif op == "rmac":
+            blocks = [int(b) for b in st["blocks"]]
+            wantb = expected_blocks(model, blocks)
+            res = call(lambda: tag.read_with_mac(*blocks))
+            mitm.rule_on = False
+            applied = any(r is not None and r != o for _c, r, o in mitm.wire[w0:])
+            if res[0] == "ret" and isinstance(res[1], (bytes, bytearray)):
+                judged += 1
+                if bytes(res[1]) != wantb:
+                    viol("order/rmac-wrong-data/%s/%s" % (fam, "tampered" if applied else "quiet"),
+                         "read_with_mac%r returned %s, the model holds %s" % (tuple(blocks), bytes(res[1]).hex(),
+                                                                              wantb.hex()), i)
+                elif applied:
+                    viol("order/rmac-accepted-tampered/%s" % fam, "read_with_mac%r returned data although the "
+                         "response was modified" % (tuple(blocks),), i)
+                else:
+                    R.count("order_rmac_ok")
+            elif applied:
+                R.count("order_rmac_tampered_rejected")
+            else:
+                R.count("order_rmac_quiet_failure/%s/%s" % ("authenticated" if authed else "not-authenticated",
+                                                            okind(res)))
+        elif op == "changed":
+            res = call(lambda: tag.ndef.has_changed)
+            mitm.rule_on = False
+            R.count("order_has_changed/%s" % okind(res))
+    mitm.rule = None
+    R.case(key, nontrivial=judged > 0 or not felica)
+
+
 EXPERIMENTS = {"auth": x_auth, "auth-tamper": x_auth_tamper, "read-mac": x_read_mac, "ndef-read": x_ndef_read,
-               "write-mac": x_write_mac, "protect": x_protect}
+               "write-mac": x_write_mac, "protect": x_protect, "order": x_order}
 
 
 def evaluate(case, R):
     try:
-        if case["exp"] in ("auth", "auth-tamper", "protect"):
+        if case["exp"] in ("auth", "auth-tamper", "protect", "order"):
             with recorded_challenges(case.get("challenge"), case.get("mode")):
                 return EXPERIMENTS[case["exp"]](case, R)
         return EXPERIMENTS[case["exp"]](case, R)
@@ -1594,6 +1905,125 @@ def w_protect_prior(R, rng, desc):
                           "others": protect_others(rng, kind, pw, key, prior_key)}, R)
 
 
+# ---- session order -------------------------------------------------------------------------------------
+# N = tag.ndef, A+ / A- = authenticate(right / wrong password), W = write, R = read_with_mac, C = has_changed;
+# a trailing * = the man in the middle is active during the step
+ORDER_PATTERNS = [
+    "N* A+ N",                    # falsified before authentication, attacker gone: the genuine message (or nothing)
+    "N* A+ N*",                   # ... attacker stays: nothing
+    "N* A+ N N*",
+    "N* A- A+ N R",               # a failed attempt in between
+    "N* A+ N A- N A+ N*",         # authenticated, not authenticated, authenticated again
+    "N A+ N",                     # nothing modified at all: cached or read again, both fine
+    "A+ N N* W N",                # first access after authentication (what single-step cases do), cache, write
+    "A+ N* N C* N",               # modification noticed -> no object; forced re-read under attack
+    "N* A+ R R* N",
+    "N* W A+ N R*",               # the falsified object is replaced by a write before authentication
+    "N* A+ W N* A+ N",
+    "N* A+ A+ N",
+]
+ORDER_PATTERNS_T2 = ["N* A+ N", "A+ N* A+ N", "N A+ N*"]
+
+
+def order_message(rng):
+    import ndef
+    if rng.random() < 0.5:
+        text = "".join(chr(rng.randrange(0x20, 0x7F)) for _ in range(rng.choice([1, 9, 20, 41, 90, 180])))
+        return b"".join(ndef.message_encoder([ndef.TextRecord(text), ndef.UriRecord("http://t.example/%d" % rng.randrange(99))]
+                                             if len(text) < 150 else [ndef.TextRecord(text)]))
+    return rng.randbytes(rng.choice([5, 16, 17, 33, 48, 49, 96, 150, 208]))
+
+
+def order_rule(rng, msg):
+    """a modification that changes the message an unprotected NDEF read returns"""
+    ln = len(msg)
+    nb = (ln + 15) // 16
+    c = rng.randrange(4)
+    if c == 0 or ln == 0:
+        cand = [x for x in (0, ln - 1, ln + 1, ln // 2, 208, rng.randrange(209)) if 0 <= x <= 208 and x != ln]
+        return {"rule": "attr-ln", "ln": rng.choice(cand)}
+    block = rng.randrange(1, nb + 1)
+    used = 16 if block < nb else ln - 16 * (nb - 1)
+    if c == 1:
+        data = bytearray(rng.randbytes(16))
+        data[0] = msg[16 * (block - 1)] ^ rng.randrange(1, 256)
+        return {"rule": "subst", "block": block, "data": bytes(data)}
+    return {"rule": "flip", "block": block, "bit": rng.randrange(used * 8)}
+
+
+def order_steps(rng, pattern, kind, pw, msg, rule):
+    fam = family(kind)
+    steps = []
+    for tok in pattern.split():
+        t = 1 if tok.endswith("*") else 0
+        op = tok.rstrip("*")
+        if op == "N":
+            st = {"op": "ndef"}
+        elif op in ("A+", "A-"):
+            right = op == "A+"
+            st = {"op": "auth", "pw": pw if right else other_key(rng, fam, derive(fam, pw))[0], "right": right}
+        elif op == "W":
+            st = {"op": "write", "data": order_message(rng)[:rng.choice([208, 208, 40])]}
+        elif op == "R":
+            blocks = [rng.randrange(0, 14) for _ in range(rng.choice([1, 2, 3]))]
+            if rule.get("block") is not None and (t or rng.random() < 0.5):
+                blocks[rng.randrange(len(blocks))] = rule["block"]
+            elif rule["rule"] == "attr-ln" and t:
+                blocks[0] = 0
+            st = {"op": "rmac", "blocks": blocks}
+        else:
+            st = {"op": "changed"}
+        if t:
+            st["t"] = 1
+        steps.append(st)
+    return steps
+
+
+def w_order(R, rng, desc):
+    shard = desc["shard"]
+    n = 0
+    for rep in range(desc["order"]):
+        for k, pattern in enumerate(ORDER_PATTERNS):
+            # both FeliCa kinds for the sequences that start with a read before authentication, else alternating
+            kinds = ("lite", "lites") if k < 2 else (("lite", "lites")[(k + shard + rep) % 2],)
+            for kind in kinds:
+                pw = gen_password(rng, kind, "bytes", rng.choice([0, 16, 16, 24]))
+                msg = order_message(rng)
+                ms = t3_spec(rng, kind, derive(kind, pw), msg=msg, ndef=True)
+                rule = order_rule(rng, msg)
+                case = {"exp": "order", "ms": ms, "pw": pw, "rule": rule,
+                        "steps": order_steps(rng, pattern, kind, pw, msg, rule)}
+                evaluate(case, R)
+                n += 1
+                if n == 1:
+                    R.sample({"exp": "order", "kind": kind, "sequence": pattern, "rule": rule})
+    for _ in range(desc["order_rand"]):
+        kind = rng.choice(("lite", "lites"))
+        toks = []
+        for _i in range(rng.randrange(3, 8)):
+            op = rng.choice(["N", "N", "N", "A+", "A+", "A-", "W", "R", "C"])
+            toks.append(op + ("*" if op[0] != "A" and rng.random() < 0.4 else ""))
+        if "A+" not in toks:
+            toks.insert(rng.randrange(len(toks)), "A+")
+        pw = gen_password(rng, kind, "bytes", rng.choice([0, 16, 16, 24]))
+        msg = order_message(rng)
+        ms = t3_spec(rng, kind, derive(kind, pw), msg=msg, ndef=True)
+        rule = order_rule(rng, msg)
+        evaluate({"exp": "order", "ms": ms, "pw": pw, "rule": rule,
+                  "steps": order_steps(rng, " ".join(toks), kind, pw, msg, rule)}, R)
+    # Type 2 families (no message authentication for reads): what happens to the cached object is recorded only
+    for rep in range(desc["order"]):
+        kind = (NTAGS[(shard + rep) % 5], ULEV1[(shard + rep) % 2], "ulc")[(shard + rep) % 3]
+        fam = family(kind)
+        for pattern in ORDER_PATTERNS_T2:
+            pw = gen_password(rng, fam, "bytes", rng.choice([0, KEYLEN[fam], KEYLEN[fam] + 2]))
+            msg = order_message(rng)[:rng.choice([12, 30, 39])]
+            ms = dict(t2_spec(rng, kind, derive(fam, pw)), msg=msg)
+            rule = {"rule": "t2-flip", "offset": 18 + rng.randrange(len(msg)), "bit": rng.randrange(8)}
+            evaluate({"exp": "order", "ms": ms, "pw": pw, "rule": rule,
+                      "steps": order_steps(rng, pattern, kind, pw, msg, rule)}, R)
+
+
 def run(desc, R, rng):
     felica = ["lite", "lites"]
     w_auth(R, rng, felica, desc["auth_felica"])
@@ -1607,3 +2037,4 @@ def run(desc, R, rng):
     w_write_mac(R, rng, desc)
     w_protect(R, rng, desc)
     w_protect_prior(R, rng, desc)
+    w_order(R, rng, desc)
